@@ -140,12 +140,7 @@ def run(tier, seed):
             if same:
                 rec.ok((path, ud, ue))
             else:
-                rec.fail(f"switches:{path}:{ud}:{ue}", f"JSONPatch(unicode_escape={ue}, uri_decode={ud}) with path {path!r} on {doc!r}: {why}",
-                         f"import copy
-from jsonpath import JSONPatch
-ops = {ops!r}
-a = JSONPatch(copy.deepcopy(ops), unicode_escape={ue}, uri_decode={ud}); b = JSONPatch(unicode_escape={ue}, uri_decode={ud}).replace({path!r}, 'new').copy({path!r}, '/copied')
-print(a.asdicts(), b.asdicts()); sys.exit(0 if a.asdicts() == b.asdicts() else 1)")
+                rec.fail(f"switches:{path}:{ud}:{ue}", f"JSONPatch(unicode_escape={ue}, uri_decode={ud}) with path {path!r} on {doc!r}: {why}", "sys.exit(2)")
     # addne / addap against add
     for d in docs:
         for path in C5.paths_for(d):
